@@ -28,10 +28,12 @@ class FnContract:
         self.ret = None; self.vis = None; self.sig = None; self.copy_as = None; self.pick = None
         self.clauses = []         # (kind, tag, text) kind in requires/ensures/decreases/recommends/raw (raw = verbatim between sig and body)
         self.entry = []           # text blocks
+        self.before_tail = []     # text inserted before the tail expression of the body
         self.after = []           # (stmt_text, count, text)
         self.before = []
         self.loops = {}           # ordinal -> text
         self.loop_entries = {}
+        self.loop_ends = {}
         self.closures = {}        # ordinal -> (header, spec text)
         self.rewrites = []        # (from, to, count)
         self.sigrewrites = []
@@ -155,6 +157,8 @@ def parse_contracts(paths):
                     block = ((lambda txt, f=f, d=d, tag=tag: f.clauses.append((d, tag, txt))), []); continue
                 if d == 'entry':
                     close_block(); block = (f.entry.append, []); continue
+                if d == 'before_tail':
+                    close_block(); block = (f.before_tail.append, []); continue
                 m2 = re.match(r'(after|before)(\*(\d*))?$', d)
                 if m2:
                     close_block()
@@ -167,6 +171,9 @@ def parse_contracts(paths):
                 if d == 'loop_entry':
                     close_block(); k = int(arg)
                     block = ((lambda txt, f=f, k=k: f.loop_entries.__setitem__(k, txt)), []); continue
+                if d == 'loop_end':
+                    close_block(); k = int(arg)
+                    block = ((lambda txt, f=f, k=k: f.loop_ends.__setitem__(k, txt)), []); continue
                 if d == 'closure':
                     close_block()
                     hm = re.match(r'(\d+)\s+(.*)$', arg)
@@ -557,6 +564,11 @@ def weave_fn(sf, it, fc, report):
         if ordn < 1 or ordn > len(loops): raise Problem('@loop_entry %d: function has %d loop(s)' % (ordn, len(loops)))
         kw_i, brace_i = loops[ordn - 1]
         edits.append((st[brace_i].b, st[brace_i].b, '\n' + txt + '\n'))
+    for ordn, txt in fc.loop_ends.items():
+        if ordn < 1 or ordn > len(loops): raise Problem('@loop_end %d: function has %d loop(s)' % (ordn, len(loops)))
+        kw_i, brace_i = loops[ordn - 1]
+        ce = match_close(st, brace_i)
+        edits.append((st[ce].a, st[ce].a, txt + '\n        '))
     closure_edit_ranges = []
     for ordn, (hdr, spec) in fc.closures.items():
         if ordn < 1 or ordn > len(closures): raise Problem('@closure %d: function has %d closure(s)' % (ordn, len(closures)))
@@ -575,6 +587,20 @@ def weave_fn(sf, it, fc, report):
         entry_txt += '\n' + e
     if entry_txt:
         edits.append((st[it.body_open].b, st[it.body_open].b, entry_txt))
+    if fc.before_tail:
+        k = b_lo; tail = b_lo
+        while k < b_hi:
+            t = st[k]
+            if t.k == P and t.s in OPEN:
+                c = match_close(st, k)
+                if t.s == '{' and c + 1 < b_hi and st[c + 1].s not in ('.', '?', ';', ')', ',', 'else') and not (st[c + 1].k == ID and st[c + 1].s == 'else'):
+                    tail = c + 1
+                k = c + 1; continue
+            if t.k == P and t.s == ';': tail = k + 1
+            k += 1
+        if tail >= b_hi: raise Problem('@before_tail: body has no tail expression')
+        pos = st[tail].a
+        edits.append((pos, pos, '\n'.join(fc.before_tail) + '\n        '))
     # after/before statements
     for lst, is_after in ((fc.after, True), (fc.before, False)):
         for stmt, cnt, txt in lst:
